@@ -1,8 +1,107 @@
-"""Shared machinery of the persistent-store checks (C08 C09 C10 C11 C16 C17)."""
+"""Shared machinery of the persistent-store checks (C08 C09 C10 C11 C16 C17): Store.tla / StoreT / StoreP."""
 import os, json
 import common as C
 
+FLAGS_REPAIRED = dict(ShareMem="TRUE", ShareSeg="FALSE", Merge="FALSE", SwapExcl="FALSE", FlushActive="TRUE")
+FINDING_OF = {"acked-lost-explained": "C08-D3-compaction-drops-sources", "zombie-explained": "C08-D1m-shared-templates"}
+WHAT = {"C08-D3-compaction-drops-sources": "compaction writes a segment that contains only this session's documents and deletes its sources: documents that lived only in those segments are gone",
+        "C08-D1m-shared-templates": "every memtable aliases the template sub-indexes, so a segment file also holds documents added later; one of them removed afterwards is returned again from that segment"}
+
+
+def model_check(rep, d, name, note):
+    r = C.tlc(d, "Store", name + ".cfg", timeout=3000, heap="12g")
+    if not r.ok:
+        raise C.Inconclusive("Store.tla (%s) violates its invariants (specification defect):\n%s" % (name, r.out[-2500:]))
+    rep.model_run(name, r, note)
+    return r
+
+
+def store_cfg(sub, memcap, compactn, comps, flags=None):
+    f = dict(FLAGS_REPAIRED)
+    f.update(flags or {})
+    cs = ", ".join('"%s"' % c for c in comps)
+    txt = ("SPECIFICATION TSpec\nCONSTANTS\n  Docs = {1, 2, 3, 4, 5, 6, 7, 8, 9}\n  MemCap = %d\n  CompactN = %d\n  MaxSeg = 60\n  MaxCrash = 0\n  Comps = {%s}\n"
+           "  ShareMem = %s\n  ShareSeg = %s\n  Merge = %s\n  SwapExcl = %s\n  FlushActive = %s\nPOSTCONDITION Accepted\nCHECK_DEADLOCK FALSE\n"
+           % (memcap, compactn, cs, f["ShareMem"], f["ShareSeg"], f["Merge"], f["SwapExcl"], f["FlushActive"]))
+    open(os.path.join(sub, "StoreT_run.cfg"), "w").write(txt)
+
+
+def run_store(rep, work, d, exe, prop, tier, label, idx, n, memcap=1, compactn=2, comps="vtm", steps=24, density=0.5, images=0.0, damage=False, seed=0,
+              allow=("C08-D3-compaction-drops-sources", "C08-D1m-shared-templates")):
+    """Runs the store driver, validates the hook-level trace against Store.tla (conformance, exact result sets, explanation ghosts)
+    and judges the client-level property monitors (StoreP).  Returns the list of trace events."""
+    sub = work.sub("st%d" % idx)
+    C.stage_dir(d, sub)
+    trace = os.path.join(sub, "trace.ndjson")
+    args = ["store", "-n", n, "-seed", C.seed() + seed, "-out", trace, "-memcap", memcap, "-compactn", compactn, "-comps", comps,
+            "-steps", steps, "-density", density, "-images", images]
+    if damage:
+        args.append("-damage")
+    p = C.run_harness(exe, args, timeout=3000)
+    if p.returncode != 0:
+        raise C.Inconclusive("store driver failed (%s): %s" % (label, (p.stderr or p.stdout)[-1500:]))
+    store_cfg(sub, memcap, compactn, [c for c in comps])
+    v = C.validate_trace(sub, "StoreT", "StoreT_run.cfg", trace, max_rejects=6)
+    if "EVENTS %d" % v["events"] not in p.stdout:
+        raise C.Inconclusive("event count mismatch (%s)" % label)
+    rep.trace_run(label, v, histories_nontrivial=C.distinct_nontrivial(trace, {"add", "remove", "flush.ret", "close.ret", "compact.end", "bg.flush.end"}, {"search.ret"}))
+    lines = C.read_trace(trace)
+    starts = [s for s, _ in C.split_histories(lines)]
+
+    def hist_of(i):
+        lo = 0
+        for s in starts:
+            if s <= i:
+                lo = s
+            else:
+                break
+        return lo
+    drift = {rj["history_start"] for rj in v["rejected"]}
+    explained = {}
+    for kind, gi, rest in v["reports"]:
+        explained.setdefault(gi, set()).add(kind)
+    rr, preports = C.run_reports(sub, "StoreP", "StoreP.cfg", trace, timeout=3000)
+    rep.model_run("StoreP monitors %s" % label, rr, "client-level property monitors on the real answers")
+    kf = {k["id"] for k in C.known_findings().get("open", [])}
+    counts = {}
+    bad_hist = set()
+    for rp in preports:
+        parts = rp.split(" ", 3)
+        kind, gi = parts[1], int(parts[2]) - 1
+        counts[kind] = counts.get(kind, 0) + 1
+        h = hist_of(gi)
+        kinds = explained.get(gi, set())
+        fid = None
+        if h not in drift and kinds and not any(k.endswith("unexplained") or k == "phantom" for k in kinds) and kind in ("acked-lost", "acked-lost-textmeta", "zombie", "knn-differs"):
+            want = "zombie-explained" if kind == "zombie" else None
+            for k in sorted(kinds):
+                if want is None or k == want:
+                    fid = FINDING_OF.get(k)
+                    break
+        if fid and fid in kf and fid in allow:
+            rep.known_finding(fid, WHAT[fid] + " (first seen: %s event %d)" % (label, gi))
+            continue
+        bad_hist.add(h)
+        if len(rep.violations) < 6:
+            hist = [json.loads(x) for x in lines[h:gi + 1]]
+            path = C.save_replay(prop, "store-%s-%s-seed%d-%d.json" % (label.replace("/", "_").replace(" ", ""), tier, C.seed(), gi),
+                                 dict(property=prop, tier=tier, seed=C.seed(), part=label, clause=kind, event_index=gi, drift=h in drift,
+                                      history=hist[-80:], what="store clause %s fails on the real answers and Store.tla does not explain it by a known deviation" % kind))
+            rep.violation(path, "%s: %s at event %d (%s): %s" % (label, kind, gi, "history not conformant to Store.tla" if h in drift else "not explained by the deviation ghosts",
+                                                              lines[gi][:300]))
+    for h in sorted(drift - bad_hist):
+        rj = [x for x in v["rejected"] if x["history_start"] == h][0]
+        rep.cov["model_drift"].append("%s: history at %d leaves Store.tla at event %d (%s) but no clause of the property fails on it" % (label, h, rj["event_index"], rj["event"][:120]))
+    rep.cov.setdefault("store_runs", []).append(dict(label=label, histories=v["histories"], events=v["events"], monitor_reports=counts,
+                                                     conformance_rejections=len(v["rejected"]), images=sum(1 for x in lines if '"op":"image.begin"' in x)))
+    if idx % 4 == 0:
+        hs = C.split_histories(lines)
+        rep.sample(dict(run=label, history=[json.loads(x) for x in hs[len(hs) // 2][1][:14]]))
+    return [json.loads(x) for x in lines]
+
 
 def damaged_segments(rep, work, d, exe, prop, tier):
-    """Store clause of C16 (filled in with the crash-image machinery)."""
-    return 0
+    """Store clause of C16: directory images with one component file of a segment truncated / emptied / removed, reopened and searched."""
+    quick = tier == "quick"
+    ev = run_store(rep, work, d, exe, prop, tier, "damaged-images", 900, 20 if quick else 120, images=0.12, damage=True, steps=20, density=0.3, seed=77)
+    return sum(1 for x in ev if x["op"] == "image.begin" and x["damage"]["kind"] != "none")
